@@ -18,7 +18,7 @@ EXPLANATION = ("Pairs of models built in one process from the same symbolic para
                "spatial acceleration of every body, u and udot are preserved (gravity and mobility forces applied). (b) FunctionBased mobilizers (MobilizedBody::Custom "
                "bridge) mirroring Pin, Slider, Universal, Cylinder, Planar, Gimbal, Bushing, Translation versus the built-in ones: same poses, velocities, accelerations, "
                "reaction forces, qdot, udot, energies.")
-BOUNDS = ("(d) trees of 1-3 bodies from the catalogue (6 quick / 18 thorough), (c) Y = 7 mobilizer types quick, 15 thorough (Euler and quaternion; not Screw and "
+BOUNDS = ("(d) trees of 1-3 bodies from the catalogue (8 quick / 22 thorough, including lone-particle trees), (c) Y = 7 mobilizer types quick, 15 thorough (Euler and quaternion; not Screw and "
           "CantileverFreeBeam), (a) 6 quick / 15 thorough trees of 1-3 bodies containing quaternion mobilizers, each in both directions, the unit quaternions parametrised by "
           "three half angles, (b) FunctionBased mirrors of Pin, Slider, Universal, Cylinder, Planar, Gimbal, Bushing, Translation alone, under a Pin and over a Pin, forward and "
           "reversed; all linearly occurring inputs (u, gravity, applied forces, mobility forces) free plus one coordinate at a time ((a): accelerations "
@@ -40,7 +40,10 @@ def instances(tier, seed):
     pick = [s for s in specs if s[0].startswith(("2:", "3"))]
     ones = [s for s in specs if s[0].startswith("1:")]
     rng.shuffle(ones)
-    pick = pick[:4 if tier == "quick" else 12] + ones[:2 if tier == "quick" else 6]
+    lone = [s for s in specs if "lone" in s[0]]
+    pick = [s for s in pick if "lone" not in s[0]]
+    ones = [s for s in ones if "lone" not in s[0]]
+    pick = pick[:4 if tier == "quick" else 12] + lone[:2 if tier == "quick" else 4] + ones[:2 if tier == "quick" else 6]
     for n, spec, e in pick:
         # (trees with a Ground-attached identity-frame Translation body = RBNodeLoneParticle get their own prefix: known finding)
         d = dict(name=("weldlone:" if "lone" in n else "weld:") + n, harness="C06_weldoffset.cpp", args=[spec, "1" if e else "0"])
